@@ -7,6 +7,7 @@ import emit
 
 def run(tier, rep):
     corp = emit.specs(tier)
+    base_names = {n for n, _ in emit.specs('quick')}
     with Scratch() as sc:
         res = emit.emit_all(corp, sc)
         ok = 0
@@ -15,6 +16,10 @@ def run(tier, rep):
             label = '%s' % o['text'].replace('\n', ' ')[:100]
             if o.get('panic'):
                 rep.violation('the generator panics on: %s: %s' % (label, o['panic']), {'spec': o['text'], 'panic': o['panic']})
+                continue
+            if (o.get('parse_err') or o.get('dfa_err') or o.get('gen_err')) and o['name'] not in base_names:
+                # a fixture grammar emerge itself rejects (error fixtures, grammars with unresolved conflicts): nothing is emitted
+                rep.coverage['fixtures_rejected_by_emerge'] = rep.coverage.get('fixtures_rejected_by_emerge', 0) + 1
                 continue
             if o.get('parse_err') or o.get('dfa_err') or o.get('gen_err'):
                 rep.inconc('corpus specification is not accepted by emerge (corpus defect): %s: %s' % (label, o.get('parse_err') or o.get('dfa_err') or o.get('gen_err')))
